@@ -29,6 +29,19 @@ PANIC_CALLS = {
     "rand::rng::Rng::random_range": "random_range",
     "core::cell::RefCell::borrow_mut": "borrow_mut", "core::cell::RefCell::borrow": "borrow",
     "core::num::<impl u32>::pow": None,
+    # documented "Panics" sections of further std APIs reachable from query-controlled values
+    "core::time::Duration::from_secs_f64": "Duration::from_secs_f64", "core::time::Duration::from_secs_f32": "Duration::from_secs_f32",
+    "core::time::Duration::mul_f64": "Duration::mul_f64", "core::time::Duration::mul_f32": "Duration::mul_f32",
+    "core::time::Duration::div_f64": "Duration::div_f64", "core::time::Duration::div_f32": "Duration::div_f32",
+    "core::str::<impl str>::split_at": "split_at", "alloc::string::String::insert": "String::insert",
+    "alloc::string::String::insert_str": "String::insert_str", "alloc::string::String::truncate": "String::truncate",
+    "alloc::string::String::drain": "String::drain", "alloc::string::String::replace_range": "String::replace_range",
+    "alloc::string::String::split_off": "String::split_off",
+    "core::slice::<impl [T]>::split_at": "split_at", "core::slice::<impl [T]>::copy_from_slice": "copy_from_slice",
+    "core::slice::<impl [T]>::chunks": "chunks", "core::slice::<impl [T]>::windows": "windows", "core::slice::<impl [T]>::swap": "swap",
+    "core::iter::traits::iterator::Iterator::step_by": "step_by",
+    "core::char::from_digit": "from_digit", "core::char::methods::<impl char>::to_digit": "to_digit",
+    "core::num::<impl i64>::abs": None, "alloc::vec::Vec::truncate": None,
 }
 INDEX_RE = re.compile(r"(^|[ <])(core::ops::index::Index(Mut)?(<[^>]*>)?>?::index(_mut)?)$|Index<.*>>::index$|IndexMut<.*>>::index_mut$")
 
